@@ -45,7 +45,6 @@
 package interp // import "golang.org/x/tools/go/ssa/interp"
 
 import (
-	"strings"
 	"fmt"
 	"go/token"
 	"go/types"
@@ -54,6 +53,7 @@ import (
 	"reflect"
 	"runtime"
 	"slices"
+	"strings"
 	"sync/atomic"
 	_ "unsafe"
 
